@@ -106,6 +106,8 @@ type world struct {
 	sink     sdk.AccAddress
 	nPk      int
 	tag      uint64
+	codeID   uint64
+	cases    int
 }
 
 var worldCounter uint64
@@ -119,31 +121,19 @@ func repoDir() string {
 
 var reflectCode []byte
 
-func newWorld(t *testing.T, minRate string) *world {
-	worldCounter++
-	w := &world{c: NewChain(nil), tag: worldCounter}
+// newWorld starts a fresh chain and stores the reflect contract code once; beginCase then gives every case
+// its own key accounts and its own contract instance (the wasm VM of a chain is never released, so chains are
+// shared by a batch of cases; nothing a case observes depends on the other cases of the batch).
+func newWorld(t *testing.T) *world {
+	w := &world{c: NewChain(nil)}
 	c := w.c
 	c.BeginBlock(5 * time.Second)
 	ctx := c.Ctx()
-	for i := 0; i < nUsers; i++ {
-		k := secp256k1.GenPrivKeyFromSecret([]byte(fmt.Sprintf("c17-user-%d-%d", worldCounter, i)))
-		w.users = append(w.users, k)
-		if err := c.Fund(sdk.AccAddress(k.PubKey().Address()), Unibi(1e15)); err != nil {
-			t.Fatal(err)
-		}
-	}
 	w.sink = sdk.AccAddress([]byte("c17-sink____________"))
 	w.gov = authtypes.NewModuleAddress(govtypes.ModuleName)
 	if err := c.Fund(w.gov, Unibi(1e13)); err != nil {
 		t.Fatal(err)
 	}
-	// staking param
-	p := c.App.StakingKeeper.GetParams(ctx)
-	p.MinCommissionRate = decOf(minRate)
-	if err := c.App.StakingKeeper.SetParams(ctx, p); err != nil {
-		t.Fatal(err)
-	}
-	// reflect contract, owner = user 0
 	if reflectCode == nil {
 		bz, err := os.ReadFile(repoDir() + "/x/devgas/v1/keeper/testdata/reflect.wasm")
 		if err != nil {
@@ -151,16 +141,44 @@ func newWorld(t *testing.T, minRate string) *world {
 		}
 		reflectCode = bz
 	}
-	owner := w.addr(0)
-	store := &wasmtypes.MsgStoreCode{Sender: owner.String(), WASMByteCode: reflectCode}
+	uploader := sdk.AccAddress([]byte("c17-uploader________"))
+	store := &wasmtypes.MsgStoreCode{Sender: uploader.String(), WASMByteCode: reflectCode}
 	rsp, err := c.App.MsgServiceRouter().Handler(store)(ctx, store)
 	if err != nil {
 		t.Fatal(err)
 	}
 	var sr wasmtypes.MsgStoreCodeResponse
 	_ = c.App.AppCodec().Unmarshal(rsp.Data, &sr)
-	inst := &wasmtypes.MsgInstantiateContract{Sender: owner.String(), CodeID: sr.CodeID, Label: "reflect", Msg: []byte(`{}`)}
-	rsp, err = c.App.MsgServiceRouter().Handler(inst)(ctx, inst)
+	w.codeID = sr.CodeID
+	c.EndBlock()
+	return w
+}
+
+func (w *world) beginCase(t *testing.T, minRate string) {
+	worldCounter++
+	w.tag = worldCounter
+	w.nPk = 0
+	w.cases++
+	c := w.c
+	c.BeginBlock(5 * time.Second)
+	ctx := c.Ctx()
+	w.users = nil
+	for i := 0; i < nUsers; i++ {
+		k := secp256k1.GenPrivKeyFromSecret([]byte(fmt.Sprintf("c17-user-%d-%d", worldCounter, i)))
+		w.users = append(w.users, k)
+		if err := c.Fund(sdk.AccAddress(k.PubKey().Address()), Unibi(1e15)); err != nil {
+			t.Fatal(err)
+		}
+	}
+	p := c.App.StakingKeeper.GetParams(ctx)
+	p.MinCommissionRate = decOf(minRate)
+	if err := c.App.StakingKeeper.SetParams(ctx, p); err != nil {
+		t.Fatal(err)
+	}
+	// a reflect contract instance of its own, owner = user 0
+	owner := w.addr(0)
+	inst := &wasmtypes.MsgInstantiateContract{Sender: owner.String(), CodeID: w.codeID, Label: fmt.Sprintf("reflect-%d", worldCounter), Msg: []byte(`{}`)}
+	rsp, err := c.App.MsgServiceRouter().Handler(inst)(ctx, inst)
 	if err != nil {
 		t.Fatal(err)
 	}
@@ -171,7 +189,6 @@ func newWorld(t *testing.T, minRate string) *world {
 		t.Fatal(err)
 	}
 	c.EndBlock()
-	return w
 }
 
 func (w *world) addr(id int) sdk.AccAddress {
@@ -345,11 +362,17 @@ func (w *world) runTx(tx txIn) txObs {
 	return w.observe(r, seq, tx.Signer)
 }
 
-func runCase(t *testing.T, ci caseIn) []txObs {
+var shared *world
+
+func runCase(t *testing.T, ci caseIn, fresh bool) []txObs {
 	if ci.MinRate == "" {
 		ci.MinRate = "0"
 	}
-	w := newWorld(t, ci.MinRate)
+	if shared == nil || fresh || shared.cases >= 40 {
+		shared = newWorld(t)
+	}
+	w := shared
+	w.beginCase(t, ci.MinRate)
 	var obs []txObs
 	for _, tx := range ci.Txs {
 		obs = append(obs, w.runTx(tx))
@@ -622,7 +645,7 @@ func TestC17(t *testing.T) {
 	em := NewEmitter(t, cfg.Out)
 	defer em.Close()
 	run := func(ci caseIn) {
-		obs := runCase(t, ci)
+		obs := runCase(t, ci, cfg.Replay != "")
 		em.Emit(ci, obs, map[string]interface{}{"cap": rawOf(ante.MAX_COMMISSION())})
 		if os.Getenv("C17_DEBUG") != "" {
 			for i, o := range obs {
